@@ -16,7 +16,8 @@ From Coq Require Import ZArith List Bool.
 From Synnax Require Import Cesium.Store Cesium.IndexSearch Cesium.Distance Cesium.Stamp
   Cesium.DeleteModel Cesium.GCModel Cesium.DeleteBase Cesium.DeleteSearch Cesium.DeleteDistance
   Cesium.DeleteOffsets Cesium.DeleteContent Cesium.DeleteExact Cesium.ReadExact Cesium.DeleteDB
-  Cesium.GCProofs Cesium.DeleteCheck Cesium.DeleteRefuted Cesium.DeleteInv Cesium.DeleteIndex.
+  Cesium.GCProofs Cesium.DeleteCheck Cesium.DeleteRefuted Cesium.DeleteInv Cesium.DeleteIndex
+  Cesium.ReadSuccess Cesium.ReadDB.
 Import ListNotations.
 Local Open Scope Z_scope.
 
@@ -137,6 +138,42 @@ Theorem C04_index_channel_delete : forall c c' a b,
 Proof. exact idx_delete_self. Qed.
 Print Assumptions C04_index_channel_delete.
 
+(* (4') Without any success hypothesis.  [db_cov d]: every pointer's time range is covered by
+   a chain of immediately contiguous domains of its index channel.  Then Distance succeeds
+   for every look-up of a read (C04_distance_succeeds), so DB.Read returns exactly the stored
+   samples of the requested range ... *)
+Theorem C04_distance_succeeds : forall P ds te,
+  widx P -> ds < te -> covered P ds te -> exists a, distance P (TR ds te) true = Ok a.
+Proof. exact distance_succeeds. Qed.
+Print Assumptions C04_distance_succeeds.
+
+Theorem C04_read_exact : forall d k rs re,
+  db_ok d -> db_cov d -> 0 <= rs < re -> re <= MAXTS ->
+  read_content (stamps_of_db d k) (read d k (TR rs re)) = filter (inside_r rs re) (content_of d k).
+Proof. exact read_exact. Qed.
+Print Assumptions C04_read_exact.
+
+(* ... and a successful DeleteTimeRange over data channels keeps the invariant and the
+   coverage, and what DB.Read returns afterwards, for every channel and every range, is what
+   it returned before minus the samples stamped in [a,b) if the channel was named, and exactly
+   what it returned before otherwise. *)
+Theorem C04_reads_after_data_delete : forall d chs a b d' k rs re,
+  db_ok d -> db_cov d -> (forall k, In k chs -> is_data d k) ->
+  delete_time_range true d chs (TR a b) = (d', None) ->
+  0 <= rs < re -> re <= MAXTS ->
+  db_ok d' /\ db_cov d' /\
+  read_content (stamps_of_db d' k) (read d' k (TR rs re)) =
+  if existsb (Z.eqb k) chs then filter (outside_ab a b) (read_content (stamps_of_db d k) (read d k (TR rs re)))
+  else read_content (stamps_of_db d k) (read d k (TR rs re)).
+Proof. exact reads_after_data_delete. Qed.
+Print Assumptions C04_reads_after_data_delete.
+
+(* GC and reopen keep the coverage as well. *)
+Theorem C04_gc_reopen_keep_coverage : forall g d,
+  db_ok d -> NoDup (map fst d) -> db_cov d -> db_cov (gc_db g d) /\ db_cov (reopen_db d).
+Proof. intros g d Hok Hnd Hc. split; [apply gc_keeps_cov; assumption|apply reopen_keeps_cov; exact Hc]. Qed.
+Print Assumptions C04_gc_reopen_keep_coverage.
+
 (* (5) Channels that are not named are never modified — whatever the bounds, whether the
    call succeeds, fails half-way (earlier channels stay deleted) or is refused. *)
 Theorem C04_unnamed_channels_untouched : forall fx d chs t d' e k,
@@ -249,8 +286,9 @@ Print Assumptions C04_reads_see_views_only.
 (* The invariant is decidable, and the check is sound: this is what the correspondence
    evaluates on every state the model reaches along every generated history (writes included),
    so the hypotheses [db_ok] / [wf_db] above are validated on every run. *)
-Theorem C04_invariant_check_sound : forall d, db_okb d = true -> db_ok d.
-Proof. exact db_okb_ok. Qed.
+Theorem C04_invariant_check_sound : forall d,
+  (db_okb d = true -> db_ok d) /\ (db_covb d = true -> db_cov d).
+Proof. intros d. split; [apply db_okb_ok|apply db_covb_ok]. Qed.
 Print Assumptions C04_invariant_check_sound.
 
 (* ================================================================== the pinned code *)
@@ -302,7 +340,7 @@ Definition ex_g0 : gcfg := GCfg 1 0.
 Definition ex_d'' : db := gc_db ex_g0 (reopen_db ex_d').
 
 Example C04_nonvacuous :
-  db_okb ex_d = true /\
+  db_okb ex_d = true /\ db_covb ex_d = true /\
   fst (after true ex_d [2] 1012 1045) = None /\
   vals_of (read ex_d 2 whole) = [(995, 1031, [11; 12; 13; 14]); (1031, 1051, [15; 16])] /\
   vals_of (read ex_d' 2 whole) = [(995, 1011, [11; 12]); (1050, 1051, [16])] /\
